@@ -44,11 +44,16 @@ package combinator
 //@   requires len(parsers) >= 1 && forall k int :: 0 <= k && k < len(parsers) ==> parsers[k] != nil
 //@   include  parsley.Parser.Parse
 //@   ghost_at call#2 parsley.GhostLastNode = lastres[parsley.Node](0)
+//@   ghost_at call#2 parsley.GhostLastCp = lastres[data.IntSet](1)
+//@   assert_at call#3 [cp-operand;C01] same(lastarg[data.IntSet](1), parsley.GhostLastCp)
+//@   ghost_at call#3 parsley.GhostCpAcc = lastres[data.IntSet](0)
+//@   ensures  [cp-all;C01] same(cp, parsley.GhostCpAcc)
 //@   ensures  [E5-first;C01,C04] n != nil ==> same(n, parsley.GhostLastNode)
 //@   ensures  [E5-none;C01,C04] n == nil ==> parsley.GhostLastNode == nil
 //@ loop 1 (k rangeindex, cp data.IntSet, err parsley.Error, notFoundErr parsley.Error)
 //@   invariant 0 <= k && k <= len(parsers)
 //@   invariant [first-wins;C01,C04] k >= 1 ==> parsley.GhostLastNode == nil
+//@   invariant [cp-all;C01] k >= 1 ==> same(cp, parsley.GhostCpAcc)
 //@   invariant parsley.WfCtx(ctx) && parsley.WfCache(ctx) && parsley.InInput(ctx.Reader(), pos) && ghostIn(ctx, lrc, pos)
 //@   invariant data.Inv(cp) && errOK(ctx, err, pos) && errOK(ctx, notFoundErr, pos)
 //@   invariant [PC1] k >= 1 && err == nil && notFoundErr == nil ==> parsley.GhostCurtailed
@@ -59,12 +64,17 @@ package combinator
 //@   requires len(parsers) >= 1 && forall k int :: 0 <= k && k < len(parsers) ==> parsers[k] != nil
 //@   include  parsley.Parser.Parse
 //@   ghost_at call#2 parsley.GhostLastNode = lastres[parsley.Node](0)
+//@   ghost_at call#2 parsley.GhostLastCp = lastres[data.IntSet](1)
+//@   assert_at call#3 [cp-operand;C01] same(lastarg[data.IntSet](1), parsley.GhostLastCp)
+//@   ghost_at call#3 parsley.GhostCpAcc = lastres[data.IntSet](0)
+//@   ensures  [cp-all;C01] same(cp, parsley.GhostCpAcc)
 //@   assert_at call#4 [E4-merged;C01] same(lastarg[parsley.Node](1), parsley.GhostLastNode)
 //@ loop 1 (k rangeindex, cp data.IntSet, res parsley.Node, err parsley.Error, notFoundErr parsley.Error)
 //@   invariant 0 <= k && k <= len(parsers)
 //@   invariant parsley.WfCtx(ctx) && parsley.WfCache(ctx) && parsley.InInput(ctx.Reader(), pos) && ghostIn(ctx, lrc, pos)
 //@   invariant data.Inv(cp) && errOK(ctx, err, pos) && errOK(ctx, notFoundErr, pos) && resOK(ctx, res, pos)
 //@   invariant [PC1] k >= 1 && res == nil && err == nil && notFoundErr == nil ==> parsley.GhostCurtailed
+//@   invariant [cp-all;C01] k >= 1 ==> same(cp, parsley.GhostCpAcc)
 
 //@ -- the same result, possibly as a list re-sliced to cut off its spare capacity
 //@ pure func sameAlts(a parsley.Node, b parsley.Node) bool = same(a, b) || (a != nil && b != nil && typeis[ast.NodeList](a) && typeis[ast.NodeList](b) && parsley.ListArr(a) == parsley.ListArr(b) && parsley.NAlts(a) == parsley.NAlts(b) && parsley.ListSpare(a) == 0)
@@ -158,6 +168,10 @@ package combinator
 //@   ensures  seqOK(s, ctx) && len(s.nodes) >= old(len(s.nodes)) && parsley.WfCtx(ctx) && parsley.WfCache(ctx) && seqGhost(ctx)
 //@   ensures  [fixed] same(s.parserLookUp, old(s.parserLookUp)) && same(s.lenCheck, old(s.lenCheck)) && same(s.resultHandler, old(s.resultHandler)) && s.token == old(s.token) && same(s.interpreter, old(s.interpreter))
 //@   assert_at entry [sep] cap(s.nodes) == 0 || s.result == nil || !typeis[ast.NodeList](s.result) || array(s.result.(ast.NodeList)) != array(s.nodes)
+//@   logs combinator.(*sequence).parse
+//@   ensures  [next;C01,C02] ncalls() == 1 && callarg[int](1, 1) == depth+1 && callarg[*parsley.Context](1, 2) == ctx && callarg[parsley.Pos](1, 4) == node.ReaderPos()
+//@   ensures  [next-same-pos;C01,C02] node.ReaderPos() <= pos ==> same(callarg[data.IntMap](1, 3), lrc) && callarg[bool](1, 5) == merge
+//@   ensures  [next-consumed;C01,C02] node.ReaderPos() > pos ==> !callarg[bool](1, 5) && forall k int :: !dom(data.MapOf(callarg[data.IntMap](1, 3)), k)
 //@   ensures  [pc1;C04] s.result != nil || s.err != nil || parsley.GhostCurtailed
 //@   ensures  [nodes-arr;C07] (array(s.nodes) == old(array(s.nodes)) && cap(s.nodes) == old(cap(s.nodes))) || fresh(s.nodes)
 //@   ensures  [result-arr;C07] s.result == nil || parsley.ListArr(s.result) == 0 || freshid(parsley.ListArr(s.result)) || (old(s.result) != nil && parsley.ListArr(s.result) == old(parsley.ListArr(s.result)) && parsley.NAlts(s.result) >= old(parsley.NAlts(s.result)) && parsley.NAlts(s.result) + parsley.ListSpare(s.result) == old(parsley.NAlts(s.result) + parsley.ListSpare(s.result)))
